@@ -85,6 +85,12 @@ func main() {
 		os.Exit(cmdEffects(os.Args[2:]))
 	case "rename-locals":
 		os.Exit(cmdRenameLocals(os.Args[2:]))
+	case "mirror-comparisons":
+		os.Exit(cmdMirror(os.Args[2:]))
+	case "commute-arithmetic":
+		os.Exit(cmdCommute(os.Args[2:]))
+	case "invert-if-else":
+		os.Exit(cmdInvert(os.Args[2:]))
 	default:
 		usage()
 	}
